@@ -29,7 +29,7 @@ func Main(prop string) {
 		cases.Add(c.CaseC(), map[string]any{"history": c.desc})
 	}
 
-	nh := o.Pick(260, 6000)
+	nh := o.Pick(260, 4000)
 	maxSteps := 45
 	for i := 0; i < nh; i++ {
 		h := RunForced(r, res, prop, maxSteps)
